@@ -9,8 +9,8 @@ import subprocess
 import tempfile
 import time
 
-Z3_TIMEOUT_MS = int(os.environ.get("PYVC_Z3_TIMEOUT_MS", "60000"))
-CVC5_TIMEOUT_MS = int(os.environ.get("PYVC_CVC5_TIMEOUT_MS", "60000"))
+Z3_TIMEOUT_MS = int(os.environ.get("PYVC_Z3_TIMEOUT_MS", "24000"))
+CVC5_TIMEOUT_MS = int(os.environ.get("PYVC_CVC5_TIMEOUT_MS", "15000"))
 
 
 def _solve(task):
@@ -23,37 +23,41 @@ def _solve(task):
     backend = "z3"
     reason = ""
     try:
-        for attempt, params in enumerate(({}, {"smt.mbqi": False}, {"smt.arith.solver": 2})):
-            s = z3.Solver()
-            s.set("timeout", timeout_ms if attempt == 0 else max(timeout_ms // 3, 2000))
-            s.set("random_seed", 0)
+        # portfolio: the tactic-based solver (what the z3 CLI runs), then the plain SMT core, then E-matching only
+        makers = (
+            ("default-tactic", lambda: z3.Tactic("default").solver(), {}, 0.5),
+            ("smt-core", lambda: z3.SimpleSolver(), {}, 0.3),
+            ("ematching-only", lambda: z3.SimpleSolver(), {"smt.mbqi": False}, 0.2),
+        )
+        z3.set_param("smt.random_seed", 0)
+        for name, mk, params, share in makers:
+            z3.set_param("smt.mbqi", True)
             for k, v in params.items():
-                try:
-                    s.set(k, v)
-                except Exception:
-                    pass
+                z3.set_param(k, v)
+            s = mk()
+            s.set("timeout", max(int(timeout_ms * share), 2000))
             s.from_string(smt2)
             r = s.check()
             if r == z3.unsat:
                 res = "unsat"
+                backend = "z3:" + name
                 break
             if r == z3.sat:
                 res = "sat"
+                backend = "z3:" + name
                 if want_model:
                     m = s.model()
                     model = {}
                     for d in m.decls():
                         try:
                             if d.arity() == 0:
-                                model[d.name()] = str(m[d])
+                                model[d.name()] = str(m[d])[:400]
                         except Exception:
                             pass
                 break
-            reason = s.reason_unknown()
-            if attempt == 0 and "timeout" in reason and timeout_ms >= 30000:
-                break
+            reason = (reason + " | " if reason else "") + f"{name}: {s.reason_unknown()}"
     except Exception as e:  # parse errors etc. are reported as unknown with the reason
-        reason = f"z3 error: {e}"
+        reason = f"z3 error: {str(e)[:300]}"
     if res == "unknown" and "Lambda" not in smt2 and "lambda" not in smt2:
         r2, why = _cvc5(smt2)
         if r2 in ("unsat",):
